@@ -82,14 +82,14 @@ def sig(c, r):
     nnz = len(c["rep"].get("ci", c["rep"].get("idx", c["rep"].get("va", []))))
     why = r.get("why") or ""
     return {"part": "io", "kind": c["kind"], "mode": c["mode"], "m": c["m"], "n": c["n"], "nnz": nnz, "empty_row": has_empty_row(c),
-            "no_arrays": len(c["arrays"]["el"]) == 0, "stage": "read" if "/read" in why else ("write" if "/write" in why else "other"),
+            "no_arrays": len(c["arrays"]["el"]) == 0, "alloc": bool(c.get("alloc")), "stage": "read" if "/read" in why else ("write" if "/write" in why else "other"),
             "outcome": r.get("outcome", "mismatch")}
 
 
 def key(c):
     if c["part"] == "ckpt":
         return json.dumps(["ck", c["cdt"], [(o["id"], o["c"]["kind"], o["c"]["m"]) for o in c["objs"]], [x["id"] for x in c["restore"]]])
-    return json.dumps(["io", c["kind"], c["bh"], c["bw"], c["m"], c["n"], c["rep"], c["mode"], c["cdt"], c["cit"], c["sdt"], c["sit"]])
+    return json.dumps(["io", c["kind"], c["bh"], c["bw"], c["m"], c["n"], c["rep"], bool(c.get("alloc")), c["mode"], c["cdt"], c["cit"], c["sdt"], c["sit"]])
 
 
 def nontrivial(c):
